@@ -971,8 +971,12 @@ func (d *Data) sendJSONValuesInRange(w http.ResponseWriter, r *http.Request, ctx
 			} else if checkVal && !json.Valid(val) {
 				return fmt.Errorf("bad JSON for key %q", key)
 			}
-			out := fmt.Sprintf(`"%s":`, key)
-			if _, err = w.Write([]byte(out)); err != nil {
+			// the key is arbitrary text: let the encoder quote and escape it
+			keyJSON, err := json.Marshal(key)
+			if err != nil {
+				return err
+			}
+			if _, err = w.Write(append(keyJSON, ':')); err != nil {
 				return err
 			}
 			if _, err = w.Write(val); err != nil {
@@ -1042,8 +1046,12 @@ func (d *Data) sendJSONKV(w http.ResponseWriter, ctx *datastore.VersionedCtx, ke
 			err = fmt.Errorf("bad JSON for key %q", key)
 			return
 		}
-		out := fmt.Sprintf(`"%s":`, key)
-		if n, err = w.Write([]byte(out)); err != nil {
+		// the key is arbitrary text: let the encoder quote and escape it
+		var keyJSON []byte
+		if keyJSON, err = json.Marshal(key); err != nil {
+			return
+		}
+		if n, err = w.Write(append(keyJSON, ':')); err != nil {
 			return
 		}
 		writtenBytes += n
